@@ -14,6 +14,7 @@ composition-API tree, every list of rounds, every input encoding (`Inp`: None / 
 inputs of zeroing streams) is undefined; otherwise that arithmetic value.
 -/
 import Frequenz.Lemmas.ShuntingBuild
+import Frequenz.Lemmas.ShuntingTie
 import Frequenz.Lemmas.FormulaStepsFixed
 
 open Formula
@@ -184,3 +185,16 @@ example : engineRun [.metric 1 false, .metric 2 false, .clip (some 0) (some 100)
     [(1, fun n => if n = 1 then .val 5 else .nan), (2, fun n => if n = 1 then .val 5 else .val (-3)),
      (3, fun n => if n = 1 then .val 5 else .val 250)] = [⟨1, none⟩, ⟨2, some 5⟩, ⟨3, some 105⟩] := by
   decide +kernel
+
+/-- **The hand-written evaluator model is the current source text.**  `Extracted.FormulaLoops.metricFetcherApply` is
+machine-translated from `MetricFetcher.apply` (`_formula_steps.py`; once per kind of the latest sample's value: None,
+NaN, ±inf, finite), `evaluatorApply` from `FormulaEvaluator.apply` (`_formula_evaluator.py`: the loop over the steps as
+ONE iteration under `pyLoopM`, the size check, the pop, the final test) on every run.  For ALL arguments:
+(1) `MetricFetcher.apply` pushes `Formula.fetch`; (2) `FormulaEvaluator.apply` — the dynamic dispatch `step.apply` being
+`Formula.applyStep env`, whose arithmetic bodies are `Extracted.Formula.*` — is `Formula.run` (exceptions included). -/
+theorem C13_model_is_source :
+    (∀ (z : Bool) (inp : Inp) (st : List V),
+      Extracted.FormulaLoops.metricFetcherApply z inp st = fetch z inp :: st) ∧
+    (∀ (steps : List Step) (env : Env),
+      Extracted.FormulaLoops.evaluatorApply (applyStep env) steps = run steps env) :=
+  ⟨ShuntingTie.metricFetcherApply_eq, ShuntingTie.evaluatorApply_eq⟩
